@@ -168,6 +168,27 @@ FamPairs(WS, FSK, SOW, SOF, AB, ABF) ==
     : ws \in WS, fsk \in [1..3 -> FSK], sow \in SOW, sof \in SOF, wab \in AB, fab \in ABF,
       wr \in {"SSP", "HSV"}, fr \in {"SSP", "HSV"} }
 
+\* ---- FamFixed: fixed allocation lists --------------------------------------------------------
+\* the layout of FamPairs; task 1 (needs a facility) and task 2 (plain) restrict their workers /
+\* facilities by fixing_allocating_*_id_list: not set, empty, one listed, several listed
+FixOff == [on |-> FALSE, l |-> <<>>]
+FixOn(l) == [on |-> TRUE, l |-> l]
+FamFixed(FW1, FF1, FW2, WS, FSK, AB) ==
+  { Cfg("fixed", 1,
+        << [Task(4, 0, FALSE, 1, TRUE, 1, <<1>>, <<1>>, 0)
+              EXCEPT !.fixWon = fw1.on, !.fixW = fw1.l, !.fixFon = ff1.on, !.fixF = ff1.l, !.wrule = wr],
+           [Task(2, 0, FALSE, 1, FALSE, 0, <<1>>, <<>>, 1) EXCEPT !.fixWon = fw2.on, !.fixW = fw2.l] >>,
+        <<>>, 1,
+        << Worker(1, <<ws[1], 1>>, fsk[1], 1, FALSE, wab, 0),
+           Worker(1, <<ws[2], 1>>, fsk[2], 2, FALSE, <<>>, 0),
+           Worker(1, <<ws[3], 1>>, fsk[3], 3, FALSE, <<>>, 0) >>,
+        << Facility(1, <<1, 0>>, 1, FALSE, <<>>), Facility(1, <<2, 0>>, 2, FALSE, <<>>) >>,
+        << [cap |-> 2, inputs |-> <<>>] >>,
+        << [space |-> 2, children |-> <<>>] >>,
+        Opt(<<>>, FALSE, "TSLACK", 12))
+    : fw1 \in FW1, ff1 \in FF1, fw2 \in FW2, ws \in WS, fsk \in [1..3 -> FSK], wab \in AB,
+      wr \in {"SSP", "HSV"} }
+
 \* ---- FamDag: a component with two parents ----------------------------------------------------
 FamDag ==
   { Cfg("dag", 1,
@@ -373,6 +394,14 @@ Family(name, tier) ==
                                        {<<FALSE, FALSE>>, <<TRUE, FALSE>>, <<FALSE, TRUE>>}, {<<>>, <<2, 1>>}, {<<>>, <<0>>, <<2, 1>>})
                          ELSE FamPairs({<<1, 2, 1>>, <<2, 1, 1>>, <<1, 1, 2>>, <<2, 2, 2>>}, {<<1, 1>>, <<1, 0>>, <<0, 1>>},
                                        [1..3 -> BOOLEAN], [1..2 -> BOOLEAN], {<<>>, <<0>>, <<1>>, <<2, 1>>}, {<<>>, <<0>>, <<1>>, <<2, 1>>})
+    [] name = "fixed" -> IF tier = 1
+                         THEN FamFixed({FixOff, FixOn(<<>>), FixOn(<<1>>), FixOn(<<2, 3>>)}, {FixOff, FixOn(<<2>>), FixOn(<<1>>)},
+                                       {FixOff, FixOn(<<3>>), FixOn(<<1, 2>>)}, {<<1, 1, 1>>, <<2, 1, 1>>},
+                                       {<<1, 1>>, <<1, 0>>, <<0, 1>>}, {<<>>, <<1>>})
+                         ELSE FamFixed({FixOff, FixOn(<<>>), FixOn(<<1>>), FixOn(<<2>>), FixOn(<<2, 3>>), FixOn(<<3, 1>>)},
+                                       {FixOff, FixOn(<<>>), FixOn(<<2>>), FixOn(<<1>>), FixOn(<<2, 1>>)},
+                                       {FixOff, FixOn(<<>>), FixOn(<<3>>), FixOn(<<1, 2>>)}, {<<1, 1, 1>>, <<2, 1, 1>>, <<1, 1, 2>>},
+                                       {<<1, 1>>, <<1, 0>>, <<0, 1>>}, {<<>>, <<1>>, <<0, 2>>})
     [] name = "dag"   -> FamDag
     [] name = "edge"  -> FamEdge
     [] name = "watch" -> FamWatch
